@@ -157,7 +157,7 @@ func init() {
 
 func runC04(w *fw.W) {
 	var ip *interp.Interp
-	maxN := w.Pick(3, 4)
+	maxN := w.Pick(3, 5)
 	var vectors [][]string
 	var rec func(cur []string, n int)
 	rec = func(cur []string, n int) {
